@@ -131,94 +131,142 @@ Definition effective_bs (bs : N) : nat :=
 Inductive cond := ItemNotFound | UnexpectedRequest | ResourceConstraint | BadRequest | NotAcceptable.
 Inductive reply := RAck | RSilent | RErr (c : cond).
 
+(* One Conn. The application refers to a connection by its handle (the order of
+   creation on the handler: position in h_conns); packets refer to it by
+   session identifier through Handler.streams (h_tbl). Session identifiers may
+   be reused: several connections can carry the same rc_sid, at most one of
+   them is registered. *)
 Record rconn := mkrc {
   rc_sid : bytes;
   rc_bs : N;            (* negotiated block size (never 0) *)
   rc_seq : N;           (* next expected sequence number *)
   rc_buf : bytes;       (* readBuf *)
   rc_max : Z;           (* maxBufSize; <= 0: unlimited *)
-  rc_registered : bool; (* still in Handler.streams *)
-  rc_rclosed : bool;    (* read side closed: readers see end-of-file after the buffer *)
-  rc_werr : bool        (* write side: a data packet was refused; bufio.Writer and the encoder keep that error *)
+  rc_rclosed : bool;    (* closed (markClosed / readClosed): readers see end-of-file after the buffer *)
+  rc_werr : bool;       (* write side: a data packet was refused; bufio.Writer and the encoder keep that error *)
+  rc_pk : list packet;  (* ghost: the data packets accepted for this connection, in order *)
+  rc_rd : bytes         (* ghost: everything Read has returned *)
 }.
 
-(* all connections ever created on the handler; registered ones are looked up by sid *)
-Definition handler := list rconn.
+Record handler := mkh {
+  h_conns : list rconn;          (* every connection ever created, by handle *)
+  h_tbl : list (bytes * nat)     (* Handler.streams: session identifier -> handle; one entry per identifier *)
+}.
+
+Definition h_empty : handler := mkh [] [].
 
 Definition new_conn (sid : bytes) (bs : N) : rconn :=
   let bs' := (if (bs =? 0)%N then ibb_block_size else bs) in
-  mkrc sid bs' 0 [] (Z.of_N ibb_max_buffer) true false false.
+  mkrc sid bs' 0 [] (Z.of_N ibb_max_buffer) false false [] [].
 
-(* the application's handle on a connection survives deregistration *)
-Fixpoint find_conn (h : handler) (sid : bytes) : option rconn :=
-  match h with
-  | [] => None
-  | c :: rest => if bytes_eqb (rc_sid c) sid then Some c else find_conn rest sid
+Definition get (h : handler) (id : nat) : option rconn := nth_error (h_conns h) id.
+
+Fixpoint upd_list (l : list rconn) (id : nat) (f : rconn -> rconn) : list rconn :=
+  match l, id with
+  | [], _ => []
+  | c :: rest, O => f c :: rest
+  | c :: rest, S i => c :: upd_list rest i f
   end.
 
-(* Handler.streams[sid].  Session identifiers are not reused within a run (the
-   harness never does; see design/C15.md): the first connection created under
-   a sid is the one the sid denotes. *)
-Definition lookup (h : handler) (sid : bytes) : option rconn :=
-  match find_conn h sid with
-  | Some c => if rc_registered c then Some c else None
+Definition upd (h : handler) (id : nat) (f : rconn -> rconn) : handler :=
+  mkh (upd_list (h_conns h) id f) (h_tbl h).
+
+(* Handler.streams as an association list with one entry per key *)
+Fixpoint tbl_find (t : list (bytes * nat)) (sid : bytes) : option nat :=
+  match t with
+  | [] => None
+  | (s, i) :: rest => if bytes_eqb s sid then Some i else tbl_find rest sid
+  end.
+
+Definition tbl_drop (t : list (bytes * nat)) (sid : bytes) : list (bytes * nat) :=
+  filter (fun e => negb (bytes_eqb (fst e) sid)) t.
+
+(* addStream: h.streams[sid] = conn (an older entry is overwritten) *)
+Definition tbl_set (t : list (bytes * nat)) (sid : bytes) (id : nat) : list (bytes * nat) :=
+  (sid, id) :: tbl_drop t sid.
+
+(* rmStream(sid, conn): the entry is deleted only if it still refers to conn *)
+Definition tbl_rm (t : list (bytes * nat)) (sid : bytes) (id : nat) : list (bytes * nat) :=
+  match tbl_find t sid with
+  | Some j => if j =? id then tbl_drop t sid else t
+  | None => t
+  end.
+
+(* rmStream before fix "closing a stream does not unregister a newer stream
+   with the same session ID" (kept for the record): whatever is registered
+   under the identifier goes *)
+Definition tbl_rm_unguarded (t : list (bytes * nat)) (sid : bytes) (id : nat) : list (bytes * nat) :=
+  tbl_drop t sid.
+
+(* Handler.streams[sid] *)
+Definition lookup (h : handler) (sid : bytes) : option (nat * rconn) :=
+  match tbl_find (h_tbl h) sid with
+  | Some id => match get h id with Some c => Some (id, c) | None => None end
   | None => None
   end.
 
-Fixpoint update (h : handler) (sid : bytes) (f : rconn -> rconn) : handler :=
-  match h with
-  | [] => []
-  | c :: rest => if bytes_eqb (rc_sid c) sid then f c :: rest else c :: update rest sid f
-  end.
+Definition add_conn (h : handler) (sid : bytes) (bs : N) : handler :=
+  mkh (h_conns h ++ [new_conn sid bs]) (tbl_set (h_tbl h) sid (length (h_conns h))).
 
-(* handlePayload on a registered, open connection *)
+(* handlePayload on a registered connection *)
 Definition fits (c : rconn) (data : bytes) : bool :=
   negb ((0 <? rc_max c)%Z &&
         (rc_max c <? Z.of_nat (length (rc_buf c)) + Z.of_nat (decoded_len (length data)))%Z).
 
+Definition accept_data (c : rconn) (seq : N) (data d : bytes) : rconn :=
+  mkrc (rc_sid c) (rc_bs c) (seq_next (rc_seq c)) (rc_buf c ++ d) (rc_max c)
+       (rc_rclosed c) (rc_werr c) (rc_pk c ++ [mkpkt seq data]) (rc_rd c).
+
+(* both carriers take the same path: the carrier only decides whether the
+   acceptance is acknowledged (iq) or silent (message) *)
 Definition payload_conn (c : rconn) (iq : bool) (seq : N) (data : bytes) : rconn * reply :=
   if rc_rclosed c then (c, RErr ItemNotFound)
   else if negb (seq =? rc_seq c)%N then (c, RErr UnexpectedRequest)
   else if negb (fits c data) then (c, RErr ResourceConstraint)
   else match decode_go data with
        | None => (c, RErr BadRequest)
-       | Some d =>
-           (mkrc (rc_sid c) (rc_bs c) (seq_next (rc_seq c)) (rc_buf c ++ d) (rc_max c)
-                 (rc_registered c) (rc_rclosed c) (rc_werr c),
-            if iq then RAck else RSilent)
+       | Some d => (accept_data c seq data d, if iq then RAck else RSilent)
        end.
 
 Definition handle_payload (h : handler) (iq : bool) (sid : bytes) (seq : N) (data : bytes)
   : handler * reply :=
   match lookup h sid with
   | None => (h, RErr ItemNotFound)
-  | Some c => let '(c', r) := payload_conn c iq seq data in (update h sid (fun _ => c'), r)
+  | Some (id, c) => let '(c', r) := payload_conn c iq seq data in (upd h id (fun _ => c'), r)
   end.
 
 Definition set_rclosed (c : rconn) : rconn :=
-  mkrc (rc_sid c) (rc_bs c) (rc_seq c) (rc_buf c) (rc_max c) false true (rc_werr c).
+  mkrc (rc_sid c) (rc_bs c) (rc_seq c) (rc_buf c) (rc_max c) true (rc_werr c) (rc_pk c) (rc_rd c).
+
+(* closeRead: rmStream(sid, c), readClosed *)
+Definition close_conn (h : handler) (id : nat) : handler :=
+  match get h id with
+  | Some c => mkh (upd_list (h_conns h) id set_rclosed) (tbl_rm (h_tbl h) (rc_sid c) id)
+  | None => h
+  end.
 
 (* SetReadBuffer *)
 Definition set_max (max : Z) (c : rconn) : rconn :=
   let m := if ((max <? Z.of_N (rc_bs c)) && (0 <? max))%Z then Z.of_N (rc_bs c) else max in
-  mkrc (rc_sid c) (rc_bs c) (rc_seq c) (rc_buf c) m (rc_registered c) (rc_rclosed c) (rc_werr c).
+  mkrc (rc_sid c) (rc_bs c) (rc_seq c) (rc_buf c) m (rc_rclosed c) (rc_werr c) (rc_pk c) (rc_rd c).
 
 Definition take_read (n : nat) (c : rconn) : rconn :=
-  mkrc (rc_sid c) (rc_bs c) (rc_seq c) (skipn n (rc_buf c)) (rc_max c) (rc_registered c) (rc_rclosed c) (rc_werr c).
+  mkrc (rc_sid c) (rc_bs c) (rc_seq c) (skipn n (rc_buf c)) (rc_max c) (rc_rclosed c) (rc_werr c)
+       (rc_pk c) (rc_rd c ++ firstn n (rc_buf c)).
 
 (* a data packet of the local writer was refused by the peer: the error sticks *)
 Definition set_werr (c : rconn) : rconn :=
-  mkrc (rc_sid c) (rc_bs c) (rc_seq c) (rc_buf c) (rc_max c) (rc_registered c) (rc_rclosed c) true.
+  mkrc (rc_sid c) (rc_bs c) (rc_seq c) (rc_buf c) (rc_max c) (rc_rclosed c) true (rc_pk c) (rc_rd c).
 
 Inductive event :=
 | EOpenLocal (sid : bytes) (bs : N) (accepted : bool)   (* Handler.Open/OpenIQ; the peer's reply is result / error *)
 | EOpenRemote (sid : bytes) (bs : N) (listening : bool) (* an open request arrives *)
 | EData (iq : bool) (sid : bytes) (seq : N) (data : bytes)
-| ERead (sid : bytes) (n : nat)                         (* Conn.Read with a buffer of n > 0 bytes, issued when it cannot block *)
-| ESetMax (sid : bytes) (max : Z)
-| EWrite (sid : bytes) (accepted : bool)                 (* Conn.Write of one block + Flush; the peer acknowledges / refuses the data packet *)
+| ERead (id : nat) (n : nat)                            (* Conn.Read with a buffer of n > 0 bytes, issued when it cannot block *)
+| ESetMax (id : nat) (max : Z)
+| EWrite (id : nat) (accepted : bool)                   (* Conn.Write of one block + Flush; the peer acknowledges / refuses the data packet *)
 | ECloseRemote (sid : bytes)                            (* a close request arrives *)
-| ECloseLocal (sid : bytes).                            (* Conn.Close; the peer answers *)
+| ECloseLocal (id : nat).                               (* Conn.Close; the peer answers *)
 
 Inductive obs :=
 | OOpen (ok : bool)
@@ -231,36 +279,41 @@ Inductive obs :=
 Definition h_step (h : handler) (e : event) : handler * obs :=
   match e with
   | EOpenLocal sid bs accepted =>
-      if accepted then (h ++ [new_conn sid bs], OOpen true) else (h, OOpen false)
+      if accepted then (add_conn h sid bs, OOpen true) else (h, OOpen false)
   | EOpenRemote sid bs listening =>
-      if listening then (h ++ [new_conn sid bs], OReply RAck) else (h, OReply (RErr NotAcceptable))
+      if listening then (add_conn h sid bs, OReply RAck) else (h, OReply (RErr NotAcceptable))
   | EData iq sid seq data =>
       let '(h', r) := handle_payload h iq sid seq data in (h', OReply r)
-  | ERead sid n =>
-      match find_conn h sid with
+  | ERead id n =>
+      match get h id with
       | None => (h, ONone)
       | Some c =>
           match rc_buf c with
           | [] => if rc_rclosed c then (h, ORead [] true) else (h, OBlocked)
-          | _ => (update h sid (take_read n), ORead (firstn n (rc_buf c)) false)
+          | _ => (upd h id (take_read n), ORead (firstn n (rc_buf c)) false)
           end
       end
-  | ESetMax sid max => (update h sid (set_max max), ONone)
-  | EWrite sid accepted =>
-      match find_conn h sid with
+  | ESetMax id max => (upd h id (set_max max), ONone)
+  | EWrite id accepted =>
+      match get h id with
       | None => (h, ONone)
       | Some c =>
           if rc_rclosed c then (h, OWrite false)        (* closed: io.EOF *)
           else if rc_werr c then (h, OWrite false)      (* the earlier error again; nothing is sent *)
           else if accepted then (h, OWrite true)
-          else (update h sid set_werr, OWrite false)
+          else (upd h id set_werr, OWrite false)
       end
   | ECloseRemote sid =>
       match lookup h sid with
       | None => (h, OReply (RErr ItemNotFound))
-      | Some _ => (update h sid set_rclosed, OReply RAck)
+      | Some (id, _) => (close_conn h id, OReply RAck)
       end
-  | ECloseLocal sid => (update h sid set_rclosed, ONone)
+  | ECloseLocal id =>
+      match get h id with
+      | None => (h, ONone)
+      | Some c => if rc_rclosed c then (h, ONone)      (* markClosed: closed already, nothing happens *)
+                  else (close_conn h id, ONone)
+      end
   end.
 
 Fixpoint h_run (h : handler) (es : list event) : handler * list obs :=
@@ -300,48 +353,39 @@ Definition payload_conn_pinned (c : rconn) (iq : bool) (seq : N) (data : bytes) 
   if negb (seq =? rc_seq c)%N then (c, RErr UnexpectedRequest)
   else
     let adv b := mkrc (rc_sid c) (rc_bs c) (seq_next (rc_seq c)) b (rc_max c)
-                      (rc_registered c) (rc_rclosed c) (rc_werr c) in
+                      (rc_rclosed c) (rc_werr c) (rc_pk c) (rc_rd c) in
     if negb (fits c data) then (adv (rc_buf c), RErr ResourceConstraint)
     else match decode_go data with
          | None => (adv (rc_buf c ++ decoded_prefix (length data) (strip_newlines data)), RErr BadRequest)
          | Some d => (adv (rc_buf c ++ d), if iq then RAck else RSilent)
          end.
 
-(* The close request on main before the repair (kept for the record): the
-   handler returned the buffered writer's stale error, Serve ended with it and
-   the request stayed unanswered (None). *)
+(* The close request on main before fix "a peer's close request is answered
+   whatever the writer's state" (kept for the record): the handler returned
+   the buffered writer's stale error, Serve ended with it and the request
+   stayed unanswered (None). *)
 Definition close_remote_reply_stale (c : rconn) : option reply :=
   if rc_werr c then None else Some RAck.
 
-(* the bytes an application reads from sid over a run *)
-Fixpoint reads_of (sid : bytes) (es : list event) (os : list obs) : bytes :=
+(* the bytes an application reads from the connection with handle id over a run *)
+Fixpoint reads_of (id : nat) (es : list event) (os : list obs) : bytes :=
   match es, os with
-  | ERead s _ :: es', ORead d _ :: os' => (if bytes_eqb s sid then d else []) ++ reads_of sid es' os'
-  | _ :: es', _ :: os' => reads_of sid es' os'
+  | ERead i _ :: es', ORead d _ :: os' => (if i =? id then d else []) ++ reads_of id es' os'
+  | _ :: es', _ :: os' => reads_of id es' os'
   | _, _ => []
   end.
 
-(* the data packets for sid that were accepted (acknowledged, or - on the
-   message carrier - not answered with an error), in order, and their bytes *)
 Definition is_ack (r : reply) : bool := match r with RAck | RSilent => true | RErr _ => false end.
-
-Fixpoint accepted_packets (sid : bytes) (es : list event) (os : list obs) : list packet :=
-  match es, os with
-  | EData _ s seq data :: es', OReply r :: os' =>
-      (if bytes_eqb s sid && is_ack r then [mkpkt seq data] else []) ++ accepted_packets sid es' os'
-  | _ :: es', _ :: os' => accepted_packets sid es' os'
-  | _, _ => []
-  end.
 
 Definition payload_of (p : packet) : bytes :=
   match decode_go (p_data p) with Some d => d | None => [] end.
 
-Definition accepted_bytes (sid : bytes) (es : list event) (os : list obs) : bytes :=
-  concat (map payload_of (accepted_packets sid es os)).
+(* the bytes of the packets accepted for a connection *)
+Definition accepted_bytes (c : rconn) : bytes := concat (map payload_of (rc_pk c)).
 
-(* what is buffered for the application on sid *)
-Definition buf_of (h : handler) (sid : bytes) : bytes :=
-  match find_conn h sid with Some c => rc_buf c | None => [] end.
+(* what is buffered for the application on a connection *)
+Definition buf_of (h : handler) (id : nat) : bytes :=
+  match get h id with Some c => rc_buf c | None => [] end.
 
 (* why (if at all) handlePayload refuses a packet on a connection *)
 Definition refusal (c : rconn) (seq : N) (data : bytes) : option cond :=
@@ -369,7 +413,8 @@ Inductive lobs :=
 | BParked                              (* Read is at ibb.read.checked *)
 | BWoke                                (* Read is at ibb.read.woken *)
 | BInRecv                              (* Read left ibb.read.checked and blocks in the receive *)
-| BAck | BRefused                      (* outcome of a data packet *)
+| BAck | BTaken | BRefused             (* outcome of a data packet: acknowledged (iq carrier), accepted
+                                          without an answer (message carrier), refused *)
 | BClosed.
 
 Record lstate := mkls {
@@ -388,10 +433,14 @@ Inductive label :=
 | LStart (n : nat)      (* the application calls Read with a buffer of n > 0 bytes *)
 | LWait                 (* the reader leaves ibb.read.checked and receives from readReady *)
 | LResume               (* the reader leaves ibb.read.woken, locks and re-tests *)
-| LDeliver (d : bytes)  (* handlePayload, under readLock: append, acknowledge, notify *)
+| LDeliver (iq : bool) (d : bytes)
+                        (* handlePayload on either carrier, under readLock: append, acknowledge
+                           (iq carrier only), notify (both carriers) *)
 | LClose.               (* Close after its handshake / closeNoNotify: close readReady under readLock *)
 
 (* the locked region of Read entered with the buffer b: return data or go waiting *)
+Definition accepted_obs (iq : bool) : lobs := if iq then BAck else BTaken.
+
 Definition read_locked (s : lstate) (n : nat) : lstate :=
   match l_buf s with
   | [] => mkls [] (l_tok s) (l_closed s) (PChecked n) (l_delivered s) (l_read s) (BParked :: l_log s)
@@ -420,7 +469,7 @@ Definition lstep (s : lstate) (l : label) : option lstate :=
       | b => Some (mkls (skipn n b) (l_tok s) (l_closed s) PIdle (l_delivered s) (l_read s ++ firstn n b)
                         (BReturned (firstn n b) false :: l_log s))
       end
-  | LDeliver d, _ =>
+  | LDeliver iq d, _ =>
       if l_closed s then
         Some (mkls (l_buf s) (l_tok s) true (l_pc s) (l_delivered s) (l_read s) (BRefused :: l_log s))
       else
@@ -428,9 +477,9 @@ Definition lstep (s : lstate) (l : label) : option lstate :=
            directly, otherwise it is queued (or dropped when one is queued already) *)
         match l_pc s with
         | PRecv n =>
-            Some (mkls (l_buf s ++ d) (l_tok s) false (PWoken n true) (l_delivered s ++ d) (l_read s) (BAck :: l_log s))
+            Some (mkls (l_buf s ++ d) (l_tok s) false (PWoken n true) (l_delivered s ++ d) (l_read s) (accepted_obs iq :: l_log s))
         | _ =>
-            Some (mkls (l_buf s ++ d) true false (l_pc s) (l_delivered s ++ d) (l_read s) (BAck :: l_log s))
+            Some (mkls (l_buf s ++ d) true false (l_pc s) (l_delivered s ++ d) (l_read s) (accepted_obs iq :: l_log s))
         end
   | LClose, _ =>
       Some (mkls (l_buf s) (l_tok s) true
@@ -466,13 +515,13 @@ Definition lstep_pinned (s : lstate) (l : label) : option lstate :=
       | b => Some (mkls (skipn n b) false (l_closed s) PIdle (l_delivered s) (l_read s ++ firstn n b)
                         (BReturned (firstn n b) false :: l_log s))
       end
-  | LDeliver d, _ =>
+  | LDeliver iq d, _ =>
       if l_closed s then
         Some (mkls (l_buf s) false true (l_pc s) (l_delivered s) (l_read s) (BRefused :: l_log s))
       else
         Some (mkls (l_buf s ++ d) false false
                    (match l_pc s with PRecv n => PWoken n true | pc => pc end)  (* else: the wake-up is dropped *)
-                   (l_delivered s ++ d) (l_read s) (BAck :: l_log s))
+                   (l_delivered s ++ d) (l_read s) (accepted_obs iq :: l_log s))
   | LClose, _ =>
       Some (mkls (l_buf s) false true
                  (match l_pc s with PRecv n => PWoken n false | pc => pc end)
@@ -569,12 +618,13 @@ Definition obs_eqb (a b : obs) : bool :=
 Record rcase := mkrcase { rc_events : list event; ro_obs : list obs }.
 
 Definition rcase_ok (c : rcase) : bool :=
-  list_eqb obs_eqb (snd (h_run [] (rc_events c))) (ro_obs c).
+  list_eqb obs_eqb (snd (h_run h_empty (rc_events c))) (ro_obs c).
 
 Definition lobs_eqb (a b : lobs) : bool :=
   match a, b with
   | BReturned d e, BReturned d' e' => bytes_eqb d d' && Bool.eqb e e'
-  | BParked, BParked | BWoke, BWoke | BInRecv, BInRecv | BAck, BAck | BRefused, BRefused | BClosed, BClosed => true
+  | BParked, BParked | BWoke, BWoke | BInRecv, BInRecv | BAck, BAck | BTaken, BTaken
+  | BRefused, BRefused | BClosed, BClosed => true
   | _, _ => false
   end.
 
